@@ -808,3 +808,100 @@ func ruleR14_6(r *Run) {
 	}
 	r.check(n >= 2, "repo:coordinate-derived-indices", fmt.Sprintf("%d array accesses indexed by block-coordinate arithmetic", n), "no coordinate-derived array index found: rule needs review", "-")
 }
+
+func init() {
+	register(ruleDef{ID: "R14.7", Prop: "C14", Tier: "quick", Floor: 1,
+		Title: "absent octants mean 'unchanged' on every path: the solid-block shortcut of Block.Downres is not taken when an octant is nil (the general path keeps the parent's stored content for nil octants)",
+		Fn:    ruleR14_7})
+}
+
+func ruleR14_7(r *Run) {
+	w := r.W
+	sb := w.method("datatype/common/labels", "Block", "setBlank")
+	slow := w.method("datatype/common/labels", "Block", "DownresSlow")
+	if sb == nil || slow == nil {
+		r.violation("labels.Block.setBlank/DownresSlow", "not found", "-")
+		return
+	}
+	// the general path: nil octants are skipped and the result starts from the block's own content
+	keeps := false
+	for _, c := range calls(slow) {
+		if callName(c) == "MakeLabelVolume" {
+			if rp := recvParam(slow); rp != nil && len(c.Common().Args) > 0 {
+				a := c.Common().Args[0]
+				if ld, ok := a.(*ssa.UnOp); ok {
+					a = ld.X
+				}
+				if a == ssa.Value(rp) {
+					keeps = true
+				}
+			}
+		}
+	}
+	r.check(keeps, "labels.Block.DownresSlow:nil-octant-keeps-stored-content", "with an absent octant the result starts from the block's own voxels", "DownresSlow no longer starts from the stored block when octants are absent", w.fpos(slow))
+	// the shortcut: from the nil edge of any `octants[i] == nil` test the solid-block store is unreachable
+	var solid ssa.Instruction
+	for _, c := range calls(sb) {
+		if callName(c) == "MakeSolidBlock" {
+			solid = c
+		}
+	}
+	if solid == nil {
+		r.ok("labels.Block.setBlank:no-shortcut", "no solid-block shortcut present", w.fpos(sb))
+		return
+	}
+	n := 0
+	var wit []ssa.Instruction
+	for _, b := range sb.Blocks {
+		ifi, ok := b.Instrs[len(b.Instrs)-1].(*ssa.If)
+		if !ok {
+			continue
+		}
+		bo, ok := ifi.Cond.(*ssa.BinOp)
+		if !ok || !(bo.Op == token.EQL || bo.Op == token.NEQ) || !isNilConst(bo.Y) {
+			continue
+		}
+		// operand: load of an element of the octants parameter
+		isOct := false
+		if ix, ok := bo.X.(*ssa.Index); ok {
+			if at, ok := ix.X.Type().Underlying().(*types.Array); ok && at.Len() == 8 {
+				isOct = true
+			}
+		}
+		if ld, ok := bo.X.(*ssa.UnOp); ok {
+			if ia, ok := ld.X.(*ssa.IndexAddr); ok {
+				// any element of an [8]*Block array
+				if pt, ok := ia.X.Type().(*types.Pointer); ok {
+					if at, ok := pt.Elem().Underlying().(*types.Array); ok && at.Len() == 8 {
+						isOct = true
+					}
+				}
+				for _, rt := range roots(ia.X, sb) {
+					if p, ok := rt.V.(*ssa.Parameter); ok && p.Name() == "octants" {
+						isOct = true
+					}
+				}
+				if al, ok := ia.X.(*ssa.Alloc); ok && al.Comment == "octants" {
+					isOct = true
+				}
+			}
+		}
+		if !isOct {
+			continue
+		}
+		n++
+		nilEdge := 0
+		if bo.Op == token.NEQ {
+			nilEdge = 1
+		}
+		s := b.Succs[nilEdge]
+		if p := findPath(sb, s.Instrs[0], func(ssa.Instruction) bool { return false }, func(in ssa.Instruction) bool { return in == solid }, nil); p != nil || s.Instrs[0] == solid {
+			wit = p
+			if wit == nil {
+				wit = []ssa.Instruction{solid}
+			}
+		}
+	}
+	r.check(n > 0 && wit == nil, "labels.Block.setBlank:shortcut-needs-all-octants", "the solid-block shortcut is unreachable once an octant was found absent",
+		"the solid-block shortcut treats an absent (unchanged) octant as solid label 0 while the general path keeps the stored content for it: when one child block becomes all zero, the whole lower-resolution parent is blanked although its other seven octants still hold labels", w.fpos(sb), w.renderPath(wit)...)
+}
